@@ -205,6 +205,17 @@ def run(ctx):
     if not preamble(ctx, race=getattr(mod, 'NEEDS_RACE', False), modules=getattr(mod, 'LEAN_MODULES', None)):
         return 2
     audit(ctx, getattr(mod, 'LEAN_MODULES', None))
+    if ctx.tier == 'thorough' and not ctx.lake_failed:
+        # independent re-check of the compiled property modules by the toolchain's olean checker
+        for m in (getattr(mod, 'LEAN_MODULES', None) or [ctx.prop]):
+            cmd = ['lake', 'env', 'leanchecker', 'RoProps.' + m]
+            ctx.checker_cmds.append('cd lean && ' + ' '.join(cmd))
+            with R.Lock('lake'):
+                rc, o, e = R.sh(cmd, cwd=R.LEAN, timeout=1800)
+            if rc != 0:
+                ctx.violation(f'leanchecker rejects RoProps.{m}', f'leanchecker RoProps.{m}\n' + (o + e)[-3000:], no_input=True)
+            else:
+                ctx.notes.append(f'leanchecker RoProps.{m}: ok')
     replay_known(ctx)
     info = fn(ctx) or {}
     report_lake_failure(ctx, info.get('search'))
